@@ -190,7 +190,9 @@ def canon_tmp(st):
 
 # ------------------------------------------------------------------ fault sites
 
-SITE_KINDS = {"read", "opensrc", "mktmp", "openw", "rename", "remove", "mkdirs", "opena", "openrw", "flock", "foreign"}
+# "write": one chunk written into a temp file (store_object / store_metadata); "append": the line written into a cid list
+# opened for append — a full disk.  A persistent failure sticks to the file written (the temp file / the cid list).
+SITE_KINDS = {"read", "opensrc", "mktmp", "write", "openw", "rename", "remove", "mkdirs", "opena", "append", "openrw", "flock", "foreign"}
 
 
 class FaultPlan:
